@@ -118,15 +118,11 @@ fn stub_get(_a: &mut Actor, request: GetRequestSpecific, _extra: Option<&[Socket
     Vec::new()
 }
 
-#[kani::proof]
-#[kani::unwind(66)]
-#[kani::stub(std::time::Instant::now, clock::mock_now)]
-#[kani::stub(std::time::Instant::elapsed, clock::mock_elapsed)]
-#[kani::stub(getrandom::fill, fill_const)]
-#[kani::stub(Core::get_cached_closest_nodes, stub_cached_closest)]
-#[kani::stub(PutQuery::start, stub_start)]
-#[kani::stub(Actor::get, stub_get)]
-fn c17_actor_put_registers_a_write_only_if_it_started() {
+fn stub_no_conflict(_c: &mut Core, _r: &PutRequestSpecific) -> Result<(), crate::core::ConcurrencyError> {
+    Ok(())
+}
+
+fn actor_put_case(prior: bool) -> (bool, bool) {
     let mut a = actor(true);
     let cached: bool = kani::any();
     let start_ok: bool = kani::any();
@@ -136,9 +132,8 @@ fn c17_actor_put_registers_a_write_only_if_it_started() {
     }
     let target = crate::core::verif_kani::id1(0x10);
     let mk = || PutRequestSpecific::PutMutable(crate::common::PutMutableRequestArguments { target, v: Box::new([1]), k: [1; 32], seq: 3, sig: [2; 64], salt: None, cas: None });
-    // arbitrary pre-state: the very same item may already be in flight (an identical put is
-    // accepted: "both calls succeed"); the second call must still be driven to completion
-    let prior: bool = kani::any();
+    // pre-state: the very same item may already be in flight (an identical put is accepted: "both
+    // calls succeed"); the second call must still be driven to completion
     if prior {
         a.core.put_queries.insert(target, PutQuery::new(mk(), None));
     }
@@ -149,13 +144,42 @@ fn c17_actor_put_registers_a_write_only_if_it_started() {
         assert!(r.is_ok() == start_ok, "C06/C08: a put that could not be started fails at once");
         assert!(registered == (start_ok || prior), "C17: a put that failed at once is not left registered as in flight (a later put for the same key must not be compared with it)");
     } else {
-        assert!(unsafe { GET_CALLS } == 1 && unsafe { START_CALLS } == 0, "no cached nodes: a lookup is started and the put waits for it");
+        assert!(unsafe { GET_CALLS } == 1 && unsafe { START_CALLS } == 0, "C06: no cached nodes: a lookup is started and the put waits for it — also when an identical put is already waiting");
         assert!(r.is_ok() && registered, "C17: the waiting put is registered, so that a concurrent put for the same key is compared with it");
     }
+    core::mem::forget(r);
+    core::mem::forget(a);
+    (cached, start_ok)
+}
+
+#[kani::proof]
+#[kani::unwind(66)]
+#[kani::stub(std::time::Instant::now, clock::mock_now)]
+#[kani::stub(std::time::Instant::elapsed, clock::mock_elapsed)]
+#[kani::stub(getrandom::fill, fill_const)]
+#[kani::stub(Core::get_cached_closest_nodes, stub_cached_closest)]
+#[kani::stub(PutQuery::start, stub_start)]
+#[kani::stub(Actor::get, stub_get)]
+fn c17_actor_put_registers_a_write_only_if_it_started() {
+    let (cached, start_ok) = actor_put_case(false);
     kani::cover!(cached && !start_ok);
     kani::cover!(cached && start_ok);
     kani::cover!(!cached);
-    kani::cover!(!cached && prior, "an identical put while the first one is still waiting for its lookup");
-    core::mem::forget(r);
-    core::mem::forget(a);
+}
+
+/// the same with an identical put already waiting; Core::check_concurrency_errors is replaced by its
+/// contract for that case (identical item => Ok: c17_check_concurrency_errors_is_the_rule_table)
+#[kani::proof]
+#[kani::unwind(5)]
+#[kani::stub(std::time::Instant::now, clock::mock_now)]
+#[kani::stub(std::time::Instant::elapsed, clock::mock_elapsed)]
+#[kani::stub(getrandom::fill, fill_const)]
+#[kani::stub(Core::get_cached_closest_nodes, stub_cached_closest)]
+#[kani::stub(PutQuery::start, stub_start)]
+#[kani::stub(Actor::get, stub_get)]
+#[kani::stub(Core::check_concurrency_errors, stub_no_conflict)]
+fn c06_actor_put_behind_an_identical_waiting_put_still_starts_its_lookup() {
+    let (cached, _start_ok) = actor_put_case(true);
+    kani::cover!(!cached, "an identical put while the first one is still waiting for its lookup");
+    kani::cover!(cached);
 }
